@@ -2,10 +2,13 @@
 """C07 Substructure search -- soundness guards, filter and operator wiring."""
 from ..r_iso import rule_admission_guards, rule_filter_and_operators
 
+from ..r_domains import rule_domains
+
 LEVEL = 'other'
 
 
 def run(ck, repo):
     ck.undecided += ['completeness (no mapping lost) of the DFS linearisation with back-references, component permutation logic, lazy_product: all-pairs-of-graphs statements']
     rule_admission_guards(ck, repo, 'C07.D1-admission-guards')
+    rule_domains(ck, repo, 'C07.D1-index-domains', only=[':_get_mapping'])
     rule_filter_and_operators(ck, repo, 'C07.D2-filter-operators')
